@@ -721,4 +721,23 @@ combination is refused all the same -/
 example : query .planar [] {} = .ok [] ∧ query .image [] { trackingUid := some "1.1" } = .ok [] ∧
     query .volumetric [] { referenceType := some cReferencedSegmentationFrame } = .error .value := by decide
 
+/-- **The name filter of the accessors** (`get_measurements(name=…)`, `get_qualitative_evaluations(name=…)`; the searches
+themselves are the rows `<name>` of T16m): on ANY group the named accessor returns, in order, exactly the entries of the
+unnamed accessor that carry that name; on a constructed group therefore exactly the measurements / evaluations it was
+constructed with under that name — none of another name, none omitted, order kept. -/
+theorem named_accessors_are_filters (g : Group) (n : String) :
+    measurementsNamed g n = (measurementsOf g).filter (fun x => x.1 == n) ∧
+    evaluationsNamed g n = (evaluationsOf g).filter (fun x => x.1 == n) ∧
+    (∀ p : Params, g = mkGroup p → CleanNames p → ContextOK p →
+      measurementsNamed g n = p.measurements.filter (fun x => x.1 == n) ∧
+      evaluationsNamed g n = p.evaluations.filter (fun x => x.1 == n)) := by
+  refine ⟨measurementsNamed_eq g n, evaluationsNamed_eq g n, ?_⟩
+  intro p hg hc hctx
+  subst hg
+  rw [measurementsNamed_eq, evaluationsNamed_eq, measurements_constructed p hctx, evaluations_constructed p hc hctx]
+  exact ⟨rfl, rfl⟩
+
+example : measurementsNamed (mkGroup exReport[3]) "M2|99V" = [("M2|99V", "2.0")] ∧ measurementsNamed (mkGroup exReport[3]) "M3|99V" = [] ∧
+    evaluationsNamed (mkGroup exReport[0]) "Q1|99V" = [("Q1|99V", "A1|99V")] ∧ evaluationsNamed (mkGroup exReport[0]) cFinding = [] := by decide
+
 end HdVerif.C16
